@@ -278,6 +278,17 @@ def run_family(pid: str, tier: str, seed: int, replay=None) -> int:
             for sc in vs:
                 sc["src"] = "tlc-values"
             scs += vs
+            # padding='same' layers (the README's other layout): equal while no tap is pruned (ExportEquivalentSameOpen);
+            # with a pruned tap the design config below fails and the replay reproduces it (finding F67)
+            R.design("MaskAlgebraMC", "MaskAlgebraMC_patterns_same", expect_ok=False)
+            for K in (2, 3, 4, 5, 7):
+                for cut in (0, 1, K - 1):
+                    for pm in ("zeros", "replicate"):
+                        arch = single_layer_arch(K, 1 + K % 2, k2=1)
+                        arch["nodes"][0].update({"causal": False, "pm": pm})
+                        scs.append({"arch": arch, "fold": False, "seed": K * 31 + cut, "alive": {"1": [1, 3]},
+                                    "tm": {"1": {"b": [0] * cut + [10] * (K - cut), "g": [10] * glen(K)}},
+                                    "props": _props(pid), "src": "same-padded"})
         else:
             # C08: every combination of fully-pruned vs open rf / dilation masks, K = 1..12 (the corners of the dump)
             corners = [s for s in pat if True]
@@ -330,7 +341,8 @@ def run_family(pid: str, tier: str, seed: int, replay=None) -> int:
                 sc["src"] = "tlc-life"
                 scs.append(sc)
     # layers invoked twice (weight sharing): states of the reuse grammar that contain a reused layer
-    if pid in ("C04", "C09"):
+    rst = []
+    if pid in ("C04", "C08", "C09"):
         rst = pitgen.dump_states("FeatGraphMC", "FeatGraphMC_reuse", R, workers=16, timeout=3600)
         rst = [s_ for s_ in rst if any(n["reuse"] for n in s_["arch"]["nodes"])]
         scs_r = _graph_state_scenarios(rst, pid, rng, 250 if quick else 4000, costs=(pid == "C04"))
@@ -340,12 +352,18 @@ def run_family(pid: str, tier: str, seed: int, replay=None) -> int:
     # C08 on architectures: all-minimum masks on every enumerated architecture
     if pid == "C08":
         seen = set()
-        for s in states:
+        # (weight-shared architectures first: the masker a twice-called layer ends up with depends on the visit order)
+        n_reuse = 0
+        for s in rst + states:
             if s["phase"] != "masked":
                 continue
             k = json.dumps(s["arch"], sort_keys=True, default=str)
             if k in seen:
                 continue
+            if any(n["reuse"] for n in s["arch"]["nodes"]):
+                if quick and n_reuse >= 80:
+                    continue
+                n_reuse += 1
             seen.add(k)
             arch = pitgen.arch_from_tla(s["arch"])
             from ..archgen import shapes
@@ -357,7 +375,7 @@ def run_family(pid: str, tier: str, seed: int, replay=None) -> int:
                      if nd["op"] == "conv" and arch["dim"] == 1 and not nd["excl"] and not nd.get("valid")}
             scs.append({"arch": arch, "fold": False, "seed": 1, "alpha": alpha, "tmraw": tmraw, "props": _props(pid),
                         "src": "all-min"})
-            if quick and len(seen) >= 250:
+            if quick and len(seen) >= 330:
                 break
     # ---------------------------------------------------------------- random drivers beyond the exhaustive bounds
     n_rand = {"C01": 250, "C04": 250, "C08": 150, "C09": 200}[pid] * (1 if quick else 12)
